@@ -54,7 +54,7 @@ Proof.
   cbn zeta. destruct (e_cur e) eqn:C.
   - set (e1 := set_cur (reset_e e) false). assert (S1 : sst e1 = sst e) by apply sst_reset.
     destruct (e_pot e1 && is_matching_fin e1).
-    + split; [rewrite <- S1; apply sst_reset|]. split; [reflexivity|]. cbn. discriminate.
+    + split; [exact (eq_trans (sst_reset e1) S1)|]. split; [reflexivity|]. cbn. discriminate.
     + split; [exact S1|]. split; [reflexivity|]. auto.
   - destruct (e_pot e && is_matching_fin e).
     + split; [apply sst_reset|]. split; [exact C|]. cbn. discriminate.
@@ -93,10 +93,10 @@ Proof.
   - destruct (first_pot is_matching es) as [e|] eqn:FM; cbn [fst snd].
     + split; [exact Hn|]. split; [exact Hc|]. split.
       * intros x Hx Ha. apply Hnm; [exact Hx|]. rewrite (Hnc x Hx), orb_false_r in Ha. exact Ha.
-      * right. split; [exact Hs|]. split; [exact Hnc|]. intros e' He'. inversion He'; subst. cbn [c_outs set_couts]. apply copy_outputs_filled.
+      * right. split; [exact Hs|]. split; [exact Hnc|]. intros e' He'. rewrite FM in He'. inversion He'; subst. cbn [c_outs set_couts]. apply copy_outputs_filled.
     + split; [exact Hn|]. split; [exact Hc|]. split.
       * intros x Hx Ha. apply Hnm; [exact Hx|]. rewrite (Hnc x Hx), orb_false_r in Ha. exact Ha.
-      * right. split; [exact Hs|]. split; [exact Hnc|]. intros e' He'. discriminate.
+      * right. split; [exact Hs|]. split; [exact Hnc|]. intros e' He'. rewrite FM in He'. discriminate.
 Qed.
 
 Lemma in_map_elem {A B} (h : A -> B) l x : In x (map h l) -> exists e, In e l /\ x = h e.
@@ -188,7 +188,7 @@ Proof.
     assert (St : c_state c = InProgress).
     { destruct K as [_ [_ [_ [[_ [l1 [e [l2 [A [B _]]]]]]|[S _]]]]]; [|exact S]. exfalso.
       assert (X : e_cur (if e_pot e && negb (relates_obj a e) then drop e else e) = false).
-      { apply NC. unfold es1, keep_if. apply in_map. subst es. apply in_or_app. right. left. reflexivity. }
+      { apply NC. unfold es1, keep_if. apply (in_map (fun e0 => if e_pot e0 && negb (relates_obj a e0) then drop e0 else e0)). subst es. apply in_or_app. right. left. reflexivity. }
       destruct (T1 e) as [_ [B1 _]]. rewrite B1 in X. congruence. }
     rewrite (surjective_pairing (complete _ c)) in H. inversion H; subst. apply complete_K.
     + apply K. + apply K. + exact St.
@@ -260,15 +260,15 @@ Proof.
   intros [Hn [Hc [Hnm HS]]]. unfold check_call. rewrite Hc. change (c_state (set_checked c)) with (c_state c).
   destruct HS as [[St [l1 [e [l2 [A [B [C D]]]]]]]|[St [NC FM]]]; rewrite St.
   - intro H. inversion H; subst es' c'. clear H.
-    set (h := fun x => let x1 := if e_cur x then call_was_made (c_order (set_checked c)) x else x in if e_pot x1 then reset_e x1 else x1).
-    assert (EQ : for_pot reset_e (for_cur (call_was_made (c_order (set_checked c))) es) = map h es).
+    set (h := fun x => let x1 := if e_cur x then call_was_made (c_order c) x else x in if e_pot x1 then reset_e x1 else x1).
+    assert (EQ : for_pot reset_e (for_cur (call_was_made (c_order c)) es) = map h es).
     { unfold for_pot, for_cur. rewrite map_map. reflexivity. }
     assert (HC : forall x, e_cur (h x) = e_cur x).
     { intro x. unfold h. cbn zeta. destruct (e_cur x) eqn:E.
       - destruct (e_pot (call_was_made _ x)); cbn; exact E.
       - destruct (e_pot x); cbn; exact E. }
     assert (HS : forall x, sst (h x) = sst x).
-    { intro x. unfold h. cbn zeta. assert (S1 : sst (if e_cur x then call_was_made (c_order (set_checked c)) x else x) = sst x).
+    { intro x. unfold h. cbn zeta. assert (S1 : sst (if e_cur x then call_was_made (c_order c) x else x) = sst x).
       { destruct (e_cur x); [|reflexivity]. unfold call_was_made. rewrite sst_reset. reflexivity. }
       destruct (e_pot _); [rewrite sst_reset|]; exact S1. }
     rewrite EQ. exists (h e). subst es. split; [apply in_map; apply in_or_app; right; left; reflexivity|]. split; [rewrite HC; exact B|].
@@ -298,7 +298,7 @@ Qed.
 
 (* ------------------------------------------------------------------ static parts through one call *)
 Lemma create_sst es : map sst (create true es) = map sst es.
-Proof. unfold create. apply map_sst. intro e. destruct (can_match (set_cur e false)); [apply sst_reset|reflexivity]. Qed.
+Proof. unfold create. apply map_sst. intro e. cbn zeta. destruct (can_match (set_cur e false)); [exact (sst_reset (set_cur e false))|reflexivity]. Qed.
 Lemma keep_if_sst p es : map sst (keep_if p es) = map sst es.
 Proof. apply tame_sst, tame_keep. Qed.
 Lemma for_pot_sst g es : (forall e, sst (g e) = sst e) -> map sst (for_pot g es) = map sst es.
@@ -372,19 +372,20 @@ Proof.
   unfold actual_call. destruct (finish_last m) as [m1|] eqn:FL; [|discriminate]. pose proof (finish_last_sst _ _ FL) as S1.
   change (m_enabled (with_exps m1 (m_exps m1) None)) with (m_enabled m1). change (m_ignore (with_exps m1 (m_exps m1) None)) with (m_ignore m1).
   change (m_exps (with_exps m1 (m_exps m1) None)) with (m_exps m1).
-  assert (IGN : forall mm, map sst (m_exps mm) = map sst (m_exps m) -> inl (mm, ignored_effect its want) = inl (m', r) ->
+  assert (IGN : forall mm, map sst (m_exps mm) = map sst (m_exps m) -> @inl (mock * effect) failure (mm, ignored_effect its want) = inl (m', r) ->
                 map sst (m_exps m') = map sst (m_exps m) /\ effect_of_call r its want /\
                 (want = true -> (r_ret r = Some None /\ r_outs r = bufs_of its) \/
                   exists e, In e (m_exps m') /\ e_cur e = true /\ e_name e = f /\ r_ret r = Some (e_ret e) /\
                             outs_ok (map (fun n => lookup_out n (ol e)) (out_names its)) (r_outs r) = true)).
   { intros mm Sm H. inversion H; subst. split; [exact Sm|]. split.
-    - unfold effect_of_call, ignored_effect. cbn. split; [apply bufs_of_length|]. split; [destruct want; eauto|auto].
+    - unfold effect_of_call, ignored_effect. cbn. split; [apply bufs_of_length|]. split; [destruct want; [eexists; reflexivity|reflexivity]|auto].
     - intro W. subst want. left. auto. }
   destruct (negb (m_enabled m1)); [apply IGN; exact S1|].
   destruct (m_ignore m1 && negb (existsb (relates f) (m_exps m1))); [apply IGN; exact S1|]. clear IGN.
+  cbn [m_exps m_aorder m_eorder m_strict m_ignore m_enabled m_last with_exps].
   set (c0 := {| c_name := f; c_order := m_aorder m1 + 1; c_state := Succeeded; c_checked := false; c_outs := [] |}).
   destruct (with_name (create true (m_exps m1)) c0) as [[es1 c1]|] eqn:WN; [|discriminate].
-  pose proof (with_name_K _ _ _ _ eq_refl WN) as K1. cbn [c_name c0] in K1.
+  pose proof (with_name_K (m_exps m1) c0 es1 c1 eq_refl WN) as K1. cbn [c_name c0] in K1.
   pose proof (with_name_sst _ _ _ _ WN) as SN. rewrite create_sst in SN. pose proof (with_name_names _ _ _ _ WN) as N1. cbn [c_outs c0 map] in N1.
   destruct (with_items its es1 c1) as [[es2 c2]|] eqn:WI; [|discriminate].
   pose proof (with_items_K f _ _ _ _ _ K1 WI) as K2. pose proof (with_items_sst _ _ _ _ _ WI) as SI.
@@ -396,7 +397,7 @@ Proof.
     destruct (check_call es2 c2) as [[es3 c3]|] eqn:CC; [|discriminate]. intro H. inversion H; subst m' r. clear H.
     cbn [m_exps with_exps r_ret r_outs]. pose proof (check_call_sst _ _ _ _ CC) as S3. pose proof (check_call_outs _ _ _ _ CC) as O3.
     split; [congruence|]. unfold last_outs. cbn [m_last with_exps].
-    split; [split; [rewrite O3; apply LEN; exact N2|split; [eauto|auto]]|]. intros _. right.
+    split; [split; [rewrite O3; apply LEN; exact N2|split; [cbn; eexists; reflexivity|auto]]|]. intros _. right.
     destruct (check_call_K f _ _ _ _ K2 CC) as [e [He [Ce [Ne [Re [Fe _]]]]]]. exists e. split; [exact He|]. split; [exact Ce|]. split; [exact Ne|].
     split; [rewrite Re; reflexivity|]. rewrite <- N2, <- O3. apply filled_outs_ok. exact Fe.
   - intro H. inversion H; subst m' r. clear H. cbn [m_exps with_exps]. split; [congruence|]. unfold last_outs. cbn [m_last with_exps r_outs r_ret].
@@ -411,3 +412,238 @@ Theorem call_delivers_consumed m f its m' r :
   \/ exists e, In e (m_exps m') /\ e_cur e = true /\ e_name e = f /\ r_ret r = Some (e_ret e) /\
                outs_ok (out_bytes (sx_of e) its) (r_outs r) = true.
 Proof. intro H. destruct (actual_call_facts _ _ _ _ _ _ H) as [_ [_ X]]. exact (X eq_refl). Qed.
+
+(* ------------------------------------------------------------------ one operation on one mock *)
+Definition quiet (r : effect) : Prop := r_ret r = None /\ r_outs r = [].
+Definition delivered (f : name) (its : list item) (m' : mock) (r : effect) : Prop :=
+  (r_ret r = Some None /\ r_outs r = bufs_of its)
+  \/ exists e, In e (m_exps m') /\ e_name e = f /\ r_ret r = Some (e_ret e) /\
+               outs_ok (map (fun n => lookup_out n (ol e)) (out_names its)) (r_outs r) = true.
+
+Lemma sst_mk n f ps outs obj ret ign lo hi : sst (mk_exp n f ps outs obj ret ign lo hi) = (f, outs, ret).
+Proof. unfold sst, ol, mk_exp. cbn [e_name e_outs e_ret]. rewrite ol_mk. reflexivity. Qed.
+
+Lemma step_facts m o m' r : step true m o = inl (m', r) ->
+  match o with
+  | OExpect n f ps outs obj ret ign =>
+      (map sst (m_exps m') = map sst (m_exps m) ++ [(f, outs, ret)] \/ map sst (m_exps m') = map sst (m_exps m)) /\ quiet r
+  | OCall f its want => map sst (m_exps m') = map sst (m_exps m) /\ effect_of_call r its want /\ (want = true -> delivered f its m' r)
+  | OClear | OPost => m_exps m' = [] /\ quiet r
+  | _ => map sst (m_exps m') = map sst (m_exps m) /\ quiet r
+  end.
+Proof.
+  destruct o as [n f ps outs obj ret ign|f its want| | | | | | | |]; cbn [step].
+  - intro H. inversion H; subst. split; [|split; reflexivity]. unfold expect. destruct (negb (m_enabled m)); [right; reflexivity|left].
+    cbn [m_exps]. rewrite map_app. cbn [map]. rewrite sst_mk. reflexivity.
+  - intro H. destruct (actual_call_facts _ _ _ _ _ _ H) as [A [B C]]. split; [exact A|]. split; [exact B|]. intro W.
+    destruct (C W) as [X|[e [He [_ [Ne [Re Oe]]]]]]; [left; exact X|right]. exists e. auto.
+  - unfold check_expectations. destruct (finish_last m) as [m1|] eqn:FL; [|discriminate].
+    destruct (last_ok m1 && unfulfilled (m_exps m1)); [discriminate|]. destruct (existsb e_ooo (m_exps m1)); [discriminate|].
+    intro H. inversion H; subst. split; [apply (finish_last_sst _ _ FL)|split; reflexivity].
+  - intro H. inversion H; subst. split; [reflexivity|split; reflexivity].
+  - intro H. inversion H; subst. split; [reflexivity|split; reflexivity].
+  - intro H. inversion H; subst. split; [reflexivity|split; reflexivity].
+  - intro H. inversion H; subst. split; [reflexivity|split; reflexivity].
+  - intro H. inversion H; subst. split; [reflexivity|split; reflexivity].
+  - unfold calls_left. destruct (finish_last m) as [m1|] eqn:FL; [|discriminate]. intro H. inversion H; subst.
+    split; [apply (finish_last_sst _ _ FL)|split; reflexivity].
+  - intro H. inversion H; subst. split; [reflexivity|split; reflexivity].
+Qed.
+
+(* ------------------------------------------------------------------ what the scenario has declared, against the world *)
+Definition decl (ds : list dexp) (s : N) (t : name * list (name * list N) * option pv) : Prop :=
+  exists d, In d ds /\ d_scope d = s /\ (d_f d, d_outs d, d_ret d) = t.
+Definition DeclOK (ds : list dexp) (w : world) : Prop :=
+  (forall t, In t (map sst (m_exps (w_g w))) -> decl ds 0 t) /\
+  (forall s m, s <> 0 -> lookup_kid s (w_kids w) = Some m -> forall t, In t (map sst (m_exps m)) -> decl ds s t).
+(* the declarations after an operation: the bookkeeping of coh *)
+Definition ds_after (ds : list dexp) (s : N) (o : op) : list dexp :=
+  match o with
+  | OExpect _ f _ os _ ret _ => ds ++ [{| d_scope := s; d_f := f; d_outs := os; d_ret := ret |}]
+  | OClear | OPost => undeclare s ds
+  | _ => ds
+  end.
+
+Lemma decl_mono ds ds' s t : (forall d, In d ds -> In d ds') -> decl ds s t -> decl ds' s t.
+Proof. intros H [d [A B]]. exists d. split; [apply H; exact A|exact B]. Qed.
+Lemma decl_undeclare ds s u t : u <> s -> s <> 0 -> decl ds u t -> decl (undeclare s ds) u t.
+Proof.
+  intros Hu Hs [d [A [B C]]]. exists d. split; [|auto]. unfold undeclare. rewrite (proj2 (N.eqb_neq s 0) Hs). apply filter_In. split; [exact A|].
+  rewrite B. apply negb_true_iff. apply N.eqb_neq. exact Hu.
+Qed.
+Lemma kid_decl ds w s : DeclOK ds w -> s <> 0 -> forall t, In t (map sst (m_exps (kid s w))) -> decl ds s t.
+Proof.
+  intros [_ K] Hs t Ht. unfold kid in Ht. destruct (lookup_kid s (w_kids w)) as [m|] eqn:L; [apply (K s m Hs L t Ht)|destruct Ht].
+Qed.
+
+Lemma finish_kids_lookup : forall kids kids', finish_kids kids = inl kids' ->
+  forall s m', lookup_kid s kids' = Some m' -> exists m, lookup_kid s kids = Some m /\ map sst (m_exps m') = map sst (m_exps m).
+Proof.
+  induction kids as [|[t m] r IH]; intros kids' H s m' L; cbn in H; [inversion H; subst; discriminate L|].
+  destruct (finish_last m) as [m1|] eqn:FL; [|discriminate]. destruct (finish_kids r) as [r'|] eqn:FK; [|discriminate]. inversion H; subst.
+  cbn in L |- *. destruct (t =? s).
+  - inversion L; subst. exists m. split; [reflexivity|apply (finish_last_sst _ _ FL)].
+  - apply (IH r' eq_refl s m' L).
+Qed.
+Lemma finish_all_decl ds w w' : DeclOK ds w -> finish_all w = inl w' -> DeclOK ds w'.
+Proof.
+  intros [G K] H. unfold finish_all in H. destruct (finish_last (w_g w)) as [g|] eqn:FL; [|discriminate].
+  destruct (finish_kids (w_kids w)) as [ks|] eqn:FK; [|discriminate]. inversion H; subst. split; cbn [w_g w_kids].
+  - rewrite (finish_last_sst _ _ FL). exact G.
+  - intros s m' Hs L t Ht. destruct (finish_kids_lookup _ _ FK s m' L) as [m [Lm Sm]]. rewrite Sm in Ht. apply (K s m Hs Lm t Ht).
+Qed.
+Lemma map_kids_decl ds w f : (forall m, m_exps (f m) = m_exps m) -> DeclOK ds w -> DeclOK ds (map_kids f w).
+Proof.
+  intros Hf [G K]. split; cbn [map_kids w_g w_kids].
+  - rewrite Hf. exact G.
+  - intros s m' Hs L t Ht. rewrite lookup_map_kids in L. destruct (lookup_kid s (w_kids w)) as [m|] eqn:Lm; [|discriminate L]. cbn in L. inversion L; subst.
+    rewrite Hf in Ht. apply (K s m Hs Lm t Ht).
+Qed.
+Lemma world0_decl ds : DeclOK ds world0.
+Proof. split; [intros t []|]. intros s m _ L. discriminate L. Qed.
+
+Lemma opt_pv_eqb_rfl v : opt_pv_eqb v v = true.
+Proof. destruct v; cbn; [apply pv_eqb_refl|reflexivity]. Qed.
+Lemma list_eqb_rfl {A} (eqb : A -> A -> bool) l : (forall x, eqb x x = true) -> list_eqb eqb l l = true.
+Proof. intro H. induction l; cbn; [reflexivity|]. rewrite H, IHl. reflexivity. Qed.
+
+Lemma delivered_coherent ds s f its m' r x :
+  (forall t, In t (map sst (m_exps m')) -> decl ds s t) -> delivered f its m' r -> r_ret r = Some x ->
+  coherent_call ds s f its x (r_outs r) = true.
+Proof.
+  intros HD [[A B]|[e [He [Ne [Re Oe]]]]] Hx; unfold coherent_call.
+  - rewrite A in Hx. inversion Hx; subst x. rewrite B. rewrite (list_eqb_rfl bytes_eqb _ bytes_eqb_refl). reflexivity.
+  - apply orb_true_iff. right. destruct (HD (sst e) (in_map sst _ _ He)) as [d [Hd [Sd Td]]]. unfold sst in Td. inversion Td as [[T1 T2 T3]].
+    apply existsb_exists. exists d. split; [exact Hd|]. rewrite Sd, T1, T2, T3, Ne, !N.eqb_refl. rewrite Re in Hx. inversion Hx; subst x.
+    rewrite opt_pv_eqb_rfl, Oe. reflexivity.
+Qed.
+
+(* what one operation of the world hands back, and the declarations afterwards *)
+Definition effect_ok (ds : list dexp) (s : N) (o : op) (r : effect) : Prop :=
+  match o with
+  | OCall f its want =>
+      length (r_outs r) = length (out_names its) /\
+      (if want then exists x, r_ret r = Some x /\ coherent_call ds s f its x (r_outs r) = true else r_ret r = None)
+  | _ => quiet r
+  end.
+
+Lemma in_app_l {A} (l m : list A) x : In x l -> In x (l ++ m). Proof. intro H. apply in_or_app. left. exact H. Qed.
+
+Lemma stepw_facts ds w s o w' r :
+  DeclOK ds w -> stepw true w (s, o) = inl (w', r) -> DeclOK (ds_after ds s o) w' /\ effect_ok ds s o r.
+Proof.
+  intros D. pose proof D as [G K]. unfold stepw. destruct (s =? 0) eqn:E0.
+  - apply N.eqb_eq in E0. subst s.
+    assert (GEN : match step true (w_g w) o with inr fl => inr fl | inl (g, r0) => inl ({| w_g := g; w_kids := w_kids w |}, r0) end = inl (w', r) ->
+                  (forall t, In t (map sst (m_exps (w_g w'))) -> decl (ds_after ds 0 o) 0 t) /\ w_kids w' = w_kids w /\ effect_ok ds 0 o r).
+    { destruct (step true (w_g w) o) as [[g r0]|] eqn:ST; [|discriminate]. intro H. inversion H; subst w' r0. cbn [w_g w_kids].
+      pose proof (step_facts _ _ _ _ ST) as SF.
+      destruct o as [n f ps outs obj ret ign|f its want| | | | | | | |]; cbn [ds_after effect_ok].
+      - destruct SF as [[S|S] Q]; (split; [|split; [reflexivity|exact Q]]); intros t Ht; rewrite S in Ht.
+        + apply in_app_or in Ht. destruct Ht as [Ht|[Ht|[]]]; [apply (decl_mono ds); [apply in_app_l|apply G; exact Ht]|].
+          eexists. split; [apply in_or_app; right; left; reflexivity|]. cbn. auto.
+        + apply (decl_mono ds); [apply in_app_l|apply G; exact Ht].
+      - destruct SF as [S [[L [RT _]] DL]]. split; [intros t Ht; rewrite S in Ht; apply G; exact Ht|]. split; [reflexivity|]. split; [exact L|].
+        destruct want; [|exact RT]. destruct RT as [x Hx]. exists x. split; [exact Hx|]. apply (delivered_coherent ds 0 f its g r); auto.
+        intros t Ht. rewrite S in Ht. apply G. exact Ht.
+      - destruct SF as [S Q]. split; [intros t Ht; rewrite S in Ht; apply G; exact Ht|auto].
+      - destruct SF as [S Q]. split; [rewrite S; intros t []|auto].
+      - destruct SF as [S Q]. split; [intros t Ht; rewrite S in Ht; apply G; exact Ht|auto].
+      - destruct SF as [S Q]. split; [intros t Ht; rewrite S in Ht; apply G; exact Ht|auto].
+      - destruct SF as [S Q]. split; [intros t Ht; rewrite S in Ht; apply G; exact Ht|auto].
+      - destruct SF as [S Q]. split; [intros t Ht; rewrite S in Ht; apply G; exact Ht|auto].
+      - destruct SF as [S Q]. split; [intros t Ht; rewrite S in Ht; apply G; exact Ht|auto].
+      - destruct SF as [S Q]. split; [rewrite S; intros t []|auto]. }
+    assert (USE : (forall t, In t (map sst (m_exps (w_g w'))) -> decl (ds_after ds 0 o) 0 t) /\ w_kids w' = w_kids w /\ effect_ok ds 0 o r ->
+                  (forall d, In d ds -> In d (ds_after ds 0 o)) -> DeclOK (ds_after ds 0 o) w' /\ effect_ok ds 0 o r).
+    { intros [A [B C]] M. split; [|exact C]. split; [exact A|]. rewrite B. intros u m Hu L t Ht. apply (decl_mono ds); [exact M|]. apply (K u m Hu L t Ht). }
+    destruct o as [n f ps outs obj ret ign|f its want| | | | | | | |].
+    + intro H. apply USE; [apply GEN; exact H|]. intros d Hd. cbn. apply in_app_l. exact Hd.
+    + intro H. apply USE; [apply GEN; exact H|]. auto.
+    + destruct (check_world w) as [w1|] eqn:CW; [|discriminate]. intro H. inversion H; subst w' r. split; [|split; reflexivity]. cbn [ds_after].
+      unfold check_world in CW. destruct (finish_all w) as [w2|] eqn:FA; [|discriminate].
+      destruct (last_ok_all w2 && left_all w2); [discriminate|]. destruct (ooo_all w2); [discriminate|]. inversion CW; subst. apply (finish_all_decl ds w); assumption.
+    + intro H. inversion H; subst. split; [apply world0_decl|split; reflexivity].
+    + intro H. apply USE; [apply GEN; exact H|]. auto.
+    + intro H. inversion H; subst. split; [|split; reflexivity]. apply map_kids_decl; [reflexivity|exact D].
+    + intro H. inversion H; subst. split; [|split; reflexivity]. apply map_kids_decl; [reflexivity|exact D].
+    + intro H. inversion H; subst. split; [|split; reflexivity]. apply map_kids_decl; [reflexivity|exact D].
+    + destruct (finish_all w) as [w2|] eqn:FA; [|discriminate]. intro H. inversion H; subst. split; [|split; reflexivity]. apply (finish_all_decl ds w); assumption.
+    + intro H. inversion H; subst. split; [apply world0_decl|split; reflexivity].
+  - apply N.eqb_neq in E0. destruct (step true (kid s w) o) as [[m r0]|] eqn:ST; [|discriminate]. intro H. inversion H; subst w' r0.
+    pose proof (step_facts _ _ _ _ ST) as SF. pose proof (kid_decl ds w s D E0) as KD.
+    assert (PUT : forall ds', (forall t, In t (map sst (m_exps m)) -> decl ds' s t) ->
+                  (forall u t, u <> s -> decl ds u t -> decl ds' u t) -> DeclOK ds' {| w_g := w_g w; w_kids := put_kid s m (w_kids w) |}).
+    { intros ds' HM HO. split; cbn [w_g w_kids].
+      - intros t Ht. apply HO; [congruence|]. apply G. exact Ht.
+      - intros u mu Hu L t Ht. destruct (N.eq_dec u s) as [->|Hne].
+        + rewrite lookup_put_same in L. inversion L; subst. apply HM. exact Ht.
+        + rewrite (lookup_put_other s u m _ Hne) in L. apply HO; [exact Hne|]. apply (K u mu Hu L t Ht). }
+    destruct o as [n f ps outs obj ret ign|f its want| | | | | | | |]; cbn [ds_after effect_ok].
+    + destruct SF as [[S|S] Q]; (split; [|exact Q]); apply PUT.
+      * intros t Ht. rewrite S in Ht. apply in_app_or in Ht. destruct Ht as [Ht|[Ht|[]]]; [apply (decl_mono ds); [apply in_app_l|apply KD; exact Ht]|].
+        eexists. split; [apply in_or_app; right; left; reflexivity|]. cbn. auto.
+      * intros u t _ Hd. apply (decl_mono ds); [apply in_app_l|exact Hd].
+      * intros t Ht. rewrite S in Ht. apply (decl_mono ds); [apply in_app_l|apply KD; exact Ht].
+      * intros u t _ Hd. apply (decl_mono ds); [apply in_app_l|exact Hd].
+    + destruct SF as [S [[L [RT _]] DL]]. split; [apply PUT; [intros t Ht; rewrite S in Ht; apply KD; exact Ht|auto]|]. split; [exact L|].
+      destruct want; [|exact RT]. destruct RT as [x Hx]. exists x. split; [exact Hx|]. apply (delivered_coherent ds s f its m r); auto.
+      intros t Ht. rewrite S in Ht. apply KD. exact Ht.
+    + destruct SF as [S Q]. split; [apply PUT; [intros t Ht; rewrite S in Ht; apply KD; exact Ht|auto]|exact Q].
+    + destruct SF as [S Q]. split; [apply PUT; [rewrite S; intros t []|intros u t Hu Hd; apply decl_undeclare; assumption]|exact Q].
+    + destruct SF as [S Q]. split; [apply PUT; [intros t Ht; rewrite S in Ht; apply KD; exact Ht|auto]|exact Q].
+    + destruct SF as [S Q]. split; [apply PUT; [intros t Ht; rewrite S in Ht; apply KD; exact Ht|auto]|exact Q].
+    + destruct SF as [S Q]. split; [apply PUT; [intros t Ht; rewrite S in Ht; apply KD; exact Ht|auto]|exact Q].
+    + destruct SF as [S Q]. split; [apply PUT; [intros t Ht; rewrite S in Ht; apply KD; exact Ht|auto]|exact Q].
+    + destruct SF as [S Q]. split; [apply PUT; [intros t Ht; rewrite S in Ht; apply KD; exact Ht|auto]|exact Q].
+    + destruct SF as [S Q]. split; [apply PUT; [rewrite S; intros t []|intros u t Hu Hd; apply decl_undeclare; assumption]|exact Q].
+Qed.
+
+(* ------------------------------------------------------------------ the coherence clause holds of every run of the model *)
+Lemma runw_fail_index : forall ops w i a j fl, o_fail (runw_from true w i ops a) = Some (j, fl) -> i <= j.
+Proof.
+  induction ops as [|so r IH]; intros w i a j fl H; cbn [runw_from] in H; [discriminate H|].
+  destruct (stepw true w so) as [[w' rv]|fl0].
+  - apply IH in H. lia.
+  - cbn in H. inversion H; subst. lia.
+Qed.
+Lemma firstn_app_exact {A} (l1 l2 : list A) : firstn (length l1) (l1 ++ l2) = l1.
+Proof. induction l1; cbn; [destruct l2; reflexivity|]. rewrite IHl1. reflexivity. Qed.
+Lemma skipn_app_exact {A} (l1 l2 : list A) : skipn (length l1) (l1 ++ l2) = l2.
+Proof. induction l1; cbn; [reflexivity|exact IHl1]. Qed.
+
+Lemma coh_run : forall ops w i a ds, DeclOK ds w ->
+  exists X Y, o_rets (runw_from true w i ops a) = rev (a_rets a) ++ X /\ o_outs (runw_from true w i ops a) = rev (a_outs a) ++ Y /\
+              coh ops i (match o_fail (runw_from true w i ops a) with Some (j, _) => Some j | None => None end) ds X Y = true.
+Proof.
+  induction ops as [|[s o] r IH]; intros w i a ds D.
+  - exists [], []. cbn. rewrite !app_nil_r. auto.
+  - cbn [runw_from]. destruct (stepw true w (s, o)) as [[w' rv]|fl] eqn:ST.
+    + destruct (stepw_facts ds w s o w' rv D ST) as [D' EO].
+      destruct (IH w' (i + 1) (add_effect a rv) (ds_after ds s o) D') as [X [Y [A [B C]]]].
+      set (O := runw_from true w' (i + 1) r (add_effect a rv)) in *.
+      set (stop := match o_fail O with Some (j, _) => Some j | None => None end) in *.
+      assert (NS : match stop with Some j => j <=? i | None => false end = false).
+      { unfold stop. destruct (o_fail O) as [[j fl]|] eqn:F; [|reflexivity]. apply runw_fail_index in F. apply N.leb_gt. lia. }
+      assert (AR : rev (a_rets (add_effect a rv)) = rev (a_rets a) ++ match r_ret rv with Some x => [x] | None => [] end).
+      { cbn. destruct (r_ret rv); [reflexivity|rewrite app_nil_r; reflexivity]. }
+      assert (AO : rev (a_outs (add_effect a rv)) = rev (a_outs a) ++ r_outs rv).
+      { cbn. rewrite rev_app_distr, rev_involutive. reflexivity. }
+      rewrite AR in A. rewrite AO in B. rewrite <- app_assoc in A, B.
+      assert (QUIET : quiet rv -> coh r (i + 1) stop (ds_after ds s o) X Y = coh ((s, o) :: r) i stop ds X Y ->
+                      exists X0 Y0, o_rets O = rev (a_rets a) ++ X0 /\ o_outs O = rev (a_outs a) ++ Y0 /\ coh ((s, o) :: r) i stop ds X0 Y0 = true).
+      { intros [Q1 Q2] E. rewrite Q1 in A. rewrite Q2 in B. exists X, Y. cbn [app] in A, B. rewrite <- E. auto. }
+      destruct o as [n f ps outs obj ret ign|f its want| | | | | | | |]; cbn [effect_ok ds_after] in EO, C, QUIET;
+        try (apply QUIET; [exact EO|]; cbn [coh ds_after]; rewrite NS; reflexivity).
+      destruct EO as [L RT]. destruct want.
+      * destruct RT as [x [Hx CC]]. rewrite Hx in A. exists (x :: X), (r_outs rv ++ Y). split; [exact A|]. split; [exact B|].
+        cbn [coh]. rewrite NS, <- L, firstn_app_exact, skipn_app_exact, Nat.eqb_refl, CC, C. reflexivity.
+      * rewrite RT in A. exists X, (r_outs rv ++ Y). split; [exact A|]. split; [exact B|]. cbn [coh]. rewrite NS, <- L, skipn_app_exact. exact C.
+    + exists [], []. cbn [mk_obs o_rets o_outs o_fail]. rewrite !app_nil_r. split; [reflexivity|]. split; [reflexivity|]. cbn [coh]. rewrite N.leb_refl. reflexivity.
+Qed.
+
+Theorem coherent_run ops : coherent ops (runw ops) = true.
+Proof.
+  unfold coherent, runw, runw_gen. destruct (coh_run ops world0 0 acc0 [] (world0_decl [])) as [X [Y [A [B C]]]].
+  cbn [acc0 a_rets a_outs rev app] in A, B. rewrite A, B. exact C.
+Qed.
